@@ -1,0 +1,104 @@
+//go:build verif
+
+// Contracts for package action/evidence: the allegation, allegation-vote and release handlers
+// (C19 guards; C04 signatures of exactly the Signers() address).
+// Comment-only file, read by /verif/govc.
+
+package evidence
+
+// ---------------------------------------------------------------- allegation (open a request)
+
+// Tags builds the event tag list from the message; it writes BlockHeight into a local 8-byte buffer with
+// binary.LittleEndian.PutUint64 (in-place byte writes are outside the engine's subset: unverified callee that
+// would havoc the whole heap). Assumed pure.
+//@ assume func (Allegation).Tags
+//@   modifies nothing
+
+// Signers() = [ValidatorAddress]
+//@ func (allegationTx).Validate
+//@   implements action.Tx
+//@   ensures result0 ==> len(tx.Signatures) == 1 && sigOK(rawBytesOf(tx.RawTx), unm(tx.Data, "Allegation").ValidatorAddress, tx.Signatures[0])   // C04.validate
+//@   exports len(sigs) == 1                                                                                                     // C04.validated-facts
+//@   exports raw.Fee.Price.Currency == ctx.FeePool.feeOpt.FeeCurrency.Name && raw.Fee.Price.Value >= 0                          // C04.validated-facts
+
+//@ func (allegationTx).ProcessCheck
+//@   implements action.Tx
+//@ func (allegationTx).ProcessDeliver
+//@   implements action.Tx
+//@ func (allegationTx).ProcessFee
+//@   implements action.Tx
+//@   assumes sgas(ctx.State) + 5000 + size * 20 <= 9223372036854775807 && size * 20 <= 9223372036854775807   // A-GASRANGE the block gas counter stays within int64 (same assumption as action.BasicFeeHandling; StakingPayerFeeHandling has no contract of its own and is inlined here)
+
+// Only an active, not frozen validator opens a request; never against itself, never against a validator that is
+// already frozen, never under a request id that is in use. Nothing but request records and the tracker changes.
+//@ func runAllegationTransaction
+//@   requires ctxOK(ctx)                                                                                                              // C18.ctx
+//@   modifies evR(ctx.EvidenceStore), evT(ctx.EvidenceStore), vHas(ctx.EvidenceStore.state), vVal(ctx.EvidenceStore.state), mapof(trackerMap(ctx.EvidenceStore))
+//@   ensures result0 ==> old(activeVal(ctx.EvidenceStore, unm(tx.Data, "Allegation").ValidatorAddress))                               // C19.open-active-only
+//@   claims result0 ==> !old(frozen(ctx.EvidenceStore, unm(tx.Data, "Allegation").ValidatorAddress))                                  // C19.open-not-frozen
+//@   ensures result0 ==> !old(frozen(ctx.EvidenceStore, unm(tx.Data, "Allegation").MaliciousAddress))                                 // C19.open-accused-not-frozen
+//@   ensures result0 ==> str(unm(tx.Data, "Allegation").ValidatorAddress) != str(unm(tx.Data, "Allegation").MaliciousAddress)        // C19.open-not-self
+//@   ensures result0 ==> !old(reqHas(ctx.EvidenceStore, unm(tx.Data, "Allegation").RequestID))                                        // C19.request-id-unique
+//@   ensures !old(activeVal(ctx.EvidenceStore, unm(tx.Data, "Allegation").ValidatorAddress)) ==> evR(ctx.EvidenceStore) == old(evR(ctx.EvidenceStore)) && evT(ctx.EvidenceStore) == old(evT(ctx.EvidenceStore))   // C19.outsider-noop
+
+// ---------------------------------------------------------------- allegation vote
+
+// Signers() = [Address]
+//@ func (allegationVoteTx).Validate
+//@   implements action.Tx
+//@   ensures result0 ==> len(tx.Signatures) == 1 && sigOK(rawBytesOf(tx.RawTx), unm(tx.Data, "AllegationVote").Address, tx.Signatures[0])   // C04.validate
+//@   exports len(sigs) == 1                                                                                                     // C04.validated-facts
+//@   exports raw.Fee.Price.Currency == ctx.FeePool.feeOpt.FeeCurrency.Name && raw.Fee.Price.Value >= 0                          // C04.validated-facts
+
+//@ func (allegationVoteTx).ProcessCheck
+//@   implements action.Tx
+//@ func (allegationVoteTx).ProcessDeliver
+//@   implements action.Tx
+//@ func (allegationVoteTx).ProcessFee
+//@   implements action.Tx
+//@   assumes sgas(ctx.State) + 5000 + size * 20 <= 9223372036854775807 && size * 20 <= 9223372036854775807   // A-GASRANGE the block gas counter stays within int64 (same assumption as action.BasicFeeHandling; StakingPayerFeeHandling has no contract of its own and is inlined here)
+
+// Only an active, not frozen validator votes; once per request; YES or NO; only on an open request.
+//@ func runAllegationVoteTransaction
+//@   requires ctxOK(ctx)                                                                                                              // C18.ctx
+//@   assumes wfReqAt(ctx.EvidenceStore, unm(tx.Data, "AllegationVote").RequestID)                                                     // A-EV-WF evidence-store invariant (request stored under its own id; kept by Vote/SetAllegationRequest, proved there); not part of ctxOK
+//@   modifies evR(ctx.EvidenceStore)[unm(tx.Data, "AllegationVote").RequestID], vHas(ctx.EvidenceStore.state), vVal(ctx.EvidenceStore.state)
+//@   ensures result0 ==> old(activeVal(ctx.EvidenceStore, unm(tx.Data, "AllegationVote").Address))                                    // C19.vote-active-only
+//@   ensures result0 ==> !old(frozen(ctx.EvidenceStore, unm(tx.Data, "AllegationVote").Address))                                      // C19.vote-not-frozen
+//@   ensures result0 ==> unm(tx.Data, "AllegationVote").Choice == evYES() || unm(tx.Data, "AllegationVote").Choice == evNO()   // C19.vote-choice
+//@   ensures result0 ==> old(reqHas(ctx.EvidenceStore, unm(tx.Data, "AllegationVote").RequestID)) && old(reqRec(ctx.EvidenceStore, unm(tx.Data, "AllegationVote").RequestID)).Status != evGUILTY() && old(reqRec(ctx.EvidenceStore, unm(tx.Data, "AllegationVote").RequestID)).Status != evINNOCENT()   // C19.vote-open
+//@   ensures result0 ==> forall j int :: 0 <= j && j < old(len(reqRec(ctx.EvidenceStore, unm(tx.Data, "AllegationVote").RequestID).Votes)) ==> old(str(reqRec(ctx.EvidenceStore, unm(tx.Data, "AllegationVote").RequestID).Votes[j].Address)) != str(unm(tx.Data, "AllegationVote").Address)   // C19.vote-once
+//@   ensures result0 ==> len(reqRec(ctx.EvidenceStore, unm(tx.Data, "AllegationVote").RequestID).Votes) == old(len(reqRec(ctx.EvidenceStore, unm(tx.Data, "AllegationVote").RequestID).Votes)) + 1   // C19.vote-append
+// (that the vote addresses of a request stay pairwise distinct is proved on EvidenceStore.Vote: C19.vote-once there)
+//@   ensures !result0 ==> evR(ctx.EvidenceStore)[unm(tx.Data, "AllegationVote").RequestID] == old(evR(ctx.EvidenceStore))[unm(tx.Data, "AllegationVote").RequestID]   // C19.outsider-noop
+
+// ---------------------------------------------------------------- release
+
+// Signers() = [ValidatorAddress]
+//@ func (releaseTx).Validate
+//@   implements action.Tx
+//@   ensures result0 ==> len(tx.Signatures) == 1 && sigOK(rawBytesOf(tx.RawTx), unm(tx.Data, "Release").ValidatorAddress, tx.Signatures[0])   // C04.validate
+//@   exports len(sigs) == 1                                                                                                     // C04.validated-facts
+//@   exports raw.Fee.Price.Currency == ctx.FeePool.feeOpt.FeeCurrency.Name && raw.Fee.Price.Value >= 0                          // C04.validated-facts
+
+//@ func (releaseTx).ProcessCheck
+//@   implements action.Tx
+//@ func (releaseTx).ProcessDeliver
+//@   implements action.Tx
+//@ func (releaseTx).ProcessFee
+//@   implements action.Tx
+//@   assumes sgas(ctx.State) + 5000 + size * 20 <= 9223372036854775807 && size * 20 <= 9223372036854775807   // A-GASRANGE the block gas counter stays within int64 (same assumption as action.BasicFeeHandling; StakingPayerFeeHandling has no contract of its own and is inlined here)
+
+// A validator is released only if it was frozen and its record is releasable at the block time
+// (BYZANTINE_FAULT: block time after FrozenAt + ValidatorReleaseTime days of the evidence options).
+//@ func runReleaseTransaction
+//@   requires ctxOK(ctx)                                                                                                              // C18.ctx
+//@   assumes wfSuspAt(ctx.EvidenceStore, unm(tx.Data, "Release").ValidatorAddress)                                                    // A-EV-WF evidence-store invariant (history record stored under its own address with its freeze time; kept by HandleRelease/UpdateSuspiciousValidator, proved there); not part of ctxOK
+//@   modifies evS(ctx.EvidenceStore)[str(unm(tx.Data, "Release").ValidatorAddress)], vHas(ctx.EvidenceStore.state), vVal(ctx.EvidenceStore.state)
+//@   ensures result0 ==> old(frozen(ctx.EvidenceStore, unm(tx.Data, "Release").ValidatorAddress))                                     // C19.release-guard
+//@   ensures result0 ==> old(suspRec(ctx.EvidenceStore, unm(tx.Data, "Release").ValidatorAddress)).Status == evMISSED() || old(suspRec(ctx.EvidenceStore, unm(tx.Data, "Release").ValidatorAddress)).Status == evBYZ()   // C19.release-ready
+// the block time is read with Header.GetTime() (protobuf getter, uninterpreted in the engine): the rule is stated on
+// the release time the handler records, which is that value
+//@   ensures result0 ==> suspHas(ctx.EvidenceStore, unm(tx.Data, "Release").ValidatorAddress) && suspRec(ctx.EvidenceStore, unm(tx.Data, "Release").ValidatorAddress).ReleaseAt != nil   // C19.release-recorded
+//@   ensures result0 && old(suspRec(ctx.EvidenceStore, unm(tx.Data, "Release").ValidatorAddress)).Status == evBYZ() ==> *suspRec(ctx.EvidenceStore, unm(tx.Data, "Release").ValidatorAddress).ReleaseAt > @time_adddate(old(*suspRec(ctx.EvidenceStore, unm(tx.Data, "Release").ValidatorAddress).FrozenAt), 0, 0, evOpt(ctx.GovernanceStore).ValidatorReleaseTime)   // C19.release-time
+//@   ensures !result0 ==> evS(ctx.EvidenceStore)[str(unm(tx.Data, "Release").ValidatorAddress)] == old(evS(ctx.EvidenceStore))[str(unm(tx.Data, "Release").ValidatorAddress)]   // C19.release-guard
